@@ -67,7 +67,11 @@ SPEC = {
         "binToks_lexes", "unTok_lexes", "tables_agree", "assoc_agrees", "ternary_level", "unary_tables_agree",
         "glue_prefix_prefix", "glue_postfix_next", "glue_needs_space", "paren_rule_matches_grammar",
         "roundtrip_expr_partial", "roundtrip_subexpr_partial", "roundtrip_comma_positions_partial", "literal_roundtrip_partial", "negative_literals_break",
-        "decimal_roundtrip"]] + [
+        "decimal_roundtrip",
+        # full expression language (Model/FormatFull + Model/ParseFull)
+        "source_fingerprints", "modifier_tables_agree", "roundtrip_xexpr_partial", "roundtrip_typeid_partial",
+        "sizeof_shift_breaks", "template_arg_shift_breaks", "template_arg_comma_regroups", "template_arg_less_regroups",
+        "less_greater_paren_regroups"]] + [
         # "every literal reads back with the same value and type": the reading half is property C10's; its literal
         # theorems and the shape obligations of the lexer's numeric functions are C09 obligations too (a change of
         # calculate_float64_from_parts / literal_*_int breaks them here as well)
